@@ -130,13 +130,30 @@ fn configure_gen(prop: &str, g: &mut Gen) {
             if g.rng.chance(1, 2) {
                 g.add_noncanon_labels();
             }
+            if g.rng.chance(1, 3) {
+                g.boost_clone = 2;
+                g.boost_save = 2;
+            }
         }
-        "C04" => g.allow_script = false,
+        "C04" => {
+            g.allow_script = false;
+            // hand-overs: the history continues on a clone or on a reloaded image (add() must behave the
+            // same there: recycled ids whose slots were saved / copied in their used state)
+            if g.rng.chance(1, 2) {
+                g.boost_clone = 3;
+                g.boost_save = 3;
+            }
+        }
         // scripts are not among the calls C01 quantifies over, and their variable ids are only predicted
         "C01" => g.allow_script = false,
         "C02" => {
             if g.rng.chance(1, 4) {
                 g.add_noncanon_labels();
+            }
+            // hand-overs (round 4): one history in three goes on with a clone / a reloaded image
+            if g.rng.chance(1, 3) {
+                g.boost_clone = 2;
+                g.boost_save = 2;
             }
         }
         "C08" => {
